@@ -55,9 +55,10 @@ type CheckDef struct {
 // each classified by the harness author. A method of the current tree that is not listed is a new entry point no
 // harness covers: the run says so (INCONCLUSIVE), it is never silently "held".
 type MethodSetGuard struct {
-	Pkg   string   `json:"pkg"`
-	Type  string   `json:"type"`
-	Known []string `json:"known"`
+	Pkg    string   `json:"pkg"`
+	Type   string   `json:"type"`
+	Known  []string `json:"known"`
+	Fields bool     `json:"fields,omitempty"` // compare the struct's field names instead of the method set
 }
 
 type KnownFinding struct {
@@ -352,6 +353,9 @@ func cmdCheck(args []string) int {
 		ev.Coverage.MethodSets = append(ev.Coverage.MethodSets, map[string]interface{}{"type": g.Pkg + "." + g.Type, "known": len(g.Known), "not_covered": missing, "no_longer_present": gone})
 		for _, m := range missing {
 			msg := fmt.Sprintf("%s.%s has an exported method %s that no harness of this check knows about (new entry point: not covered)", g.Pkg, g.Type, m)
+			if g.Fields {
+				msg = fmt.Sprintf("%s.%s has an exported field %s that no harness of this check knows about (not covered)", g.Pkg, g.Type, m)
+			}
 			fmt.Printf("INCONCLUSIVE: property=%s %s\n", prop, msg)
 			ev.Coverage.Inconclusive = append(ev.Coverage.Inconclusive, msg)
 			inconclusive = true
@@ -720,6 +724,30 @@ func methodSetDiff(l *Loaded, g MethodSetGuard) (missing, gone []string) {
 	}
 	have := map[string]bool{}
 	t := obj.Type()
+	if g.Fields {
+		st, ok := t.Underlying().(*types.Struct)
+		if !ok {
+			return []string{"(type " + g.Type + " is not a struct)"}, nil
+		}
+		for i := 0; i < st.NumFields(); i++ {
+			f := st.Field(i)
+			if !f.Exported() {
+				continue
+			}
+			have[f.Name()] = true
+			if !known[f.Name()] {
+				missing = append(missing, f.Name())
+			}
+		}
+		for k := range known {
+			if !have[k] {
+				gone = append(gone, k)
+			}
+		}
+		sort.Strings(missing)
+		sort.Strings(gone)
+		return
+	}
 	var ms *types.MethodSet
 	if _, isIface := t.Underlying().(*types.Interface); isIface {
 		ms = types.NewMethodSet(t)
